@@ -141,6 +141,10 @@ func (f *AdjustArray) Call(s *slip.Scope, args slip.List, depth int) (result sli
 			}
 		}
 	}
+	if len(dims) == 1 && dims[0] < fillPtr {
+		slip.TypePanic(s, depth, "fill-pointer", slip.Fixnum(fillPtr),
+			fmt.Sprintf("fixnum not more than the new size of the vector, %d", dims[0]))
+	}
 	switch ta := args[0].(type) {
 	case *slip.Array:
 		result = ta.Adjust(dims, elementType, initElement, initContents)
